@@ -19,4 +19,8 @@ for usb, tier in ((5, 'quick'), (1, 'thorough'), (12, 'thorough'), (18, 'thoroug
      defines={'BACKING': 48, 'USB': usb, 'VERIF_ALLOC_BOUND(n)': '((n)<=4*64*(g_verif_input_len+1))'},
      bound='48-byte backing buffer, symbolic length, arbitrary position, any version; bound: every allocation <= 4*64*(n+1) bytes (num_symbols/64 <= remaining)',
      covers='RAnsSymbolDecoder<%d>::Create (num_symbols guard, probability_table_.resize); rans_build_look_up_table cut' % usb))
+OBLIGATIONS.append(Ob('C18.cmpgram_flags', H, 'h_cmpgram_flags', tier='quick', unwind=8, ub=True, flavour='nospec', max_alloc=32, allow_alloc_cut=True,
+    defines={'BACKING': 24, 'MAXCORNERS': 3, 'VERIF_ALLOC_BOUND(n)': '((n)<=8+g_verif_input_len)'},
+    bound='24-byte backing buffer, symbolic length/position/version, declared corner count 0..3; bound: every allocation <= 8 + stream length + number of corners',
+    covers='MeshPredictionSchemeConstrainedMultiParallelogramDecoder::DecodePredictionData (num_flags <= num_corners guard, is_crease_edge_ resize), RAnsBitDecoder, wrap DecodeTransformData'))
 META = {}
